@@ -1555,7 +1555,11 @@ macro_rules! core_ops3_impl {
                         } else {
                             let mut res: GLWE<Vec<u8>> = GLWE::alloc_from_infos(&in_infos);
                             res.fill_uniform(sh.b_in as usize, &mut src(sh.seed, 7));
-                            let declared = m.cmux_tmp_bytes(&in_infos, &in_infos, &ggsw_infos);
+                            let declared = if op == "cmux_assign" {
+                                m.cmux_tmp_bytes(&in_infos, &in_infos, &ggsw_infos)
+                            } else {
+                                m.cmux_assign_neg_tmp_bytes(&in_infos, &in_infos, &ggsw_infos)
+                            };
                             let r = if op == "cmux_assign" {
                                 windowed(declared, w, &mut |s| m.cmux_assign(&mut res, &a, &gp, s))
                             } else {
